@@ -48,17 +48,17 @@ fn emit_iter(sink: &mut Sink, v: &IppValue, n: &mut u64, depth: usize) {
                 sx.push(ipp_json(x));
             }
         }
-        sx.extend(it.skip(b).step_by(st).take(100_000).map(ipp_json));
+        sx.extend(it.skip(b).step_by(st).take(2 * len + 8).map(ipp_json));   // bounded: a broken iterator may never end
         let mut it2 = v.into_iter();
         for _ in 0..a {
             it2.next();
         }
-        let count = it2.take(1_000_000).count();
+        let count = it2.take(2 * len + 8).count();
         let mut it3 = v.into_iter();
         for _ in 0..a {
             it3.next();
         }
-        let last: Vec<J> = it3.take(1_000_000).last().map(ipp_json).into_iter().collect();
+        let last: Vec<J> = it3.take(2 * len + 8).last().map(ipp_json).into_iter().collect();
         sink.emit(&json!({"ev": "iterx", "v": ipp_json(v), "morder": morder, "first": a, "skip": b, "step": st, "seq": sx, "count": count, "last": last}),
             &json!({"value": format!("{:?}", v).chars().take(1500).collect::<String>(), "how": format!("{} x next(), then skip({}).step_by({}); count(); last()", a, b, st)}));
         *n += 1;
